@@ -49,6 +49,8 @@ struct G {
     ts: Vec<u64>,
     /// visible heads (positions)
     heads: Vec<usize>,
+    /// heads of the earlier operation in which every commit was still visible (for scopes)
+    heads1: Vec<usize>,
 }
 
 impl G {
@@ -113,6 +115,11 @@ enum E {
     Un(Box<E>, Box<E>),
     In(Box<E>, Box<E>),
     Mi(Box<E>, Box<E>),
+    // --- not modelled in Lean: checked by the oracle only ---
+    Merge(Box<E>),
+    Forks,
+    /// `at_operation(op1, x)` / `x.within_visibility(repo1)`: symbols and visibility of the earlier operation
+    Scope(Box<E>),
 }
 
 fn bx(e: E) -> Box<E> { Box::new(e) }
@@ -137,6 +144,7 @@ fn gen_leaf(r: &mut Rng, n: usize) -> E {
         3 => E::Root,
         4 => E::Commits((0..r.below(2)).map(|_| r.below(n)).collect()), // sometimes empty
         5 => E::Vhor,
+        6 if r.chance(1, 2) => E::Forks,
         _ => E::Commits((0..1 + r.below(3)).map(|_| r.below(n)).collect()), // may contain duplicates
     }
 }
@@ -144,7 +152,7 @@ fn gen_leaf(r: &mut Rng, n: usize) -> E {
 fn gen_e(r: &mut Rng, d: usize, n: usize) -> E {
     if d == 0 || r.below(5) == 0 { return gen_leaf(r, n); }
     let sub = |r: &mut Rng| bx(gen_e(r, d - 1, n));
-    match r.below(40) {
+    match r.below(43) {
         0..=4 => { let (a, b) = gen_range(r); E::Anc(sub(r), a, b, false) }
         5 | 6 => { let (a, b) = gen_range(r); E::Anc(sub(r), a, b, true) }
         7..=10 => { let (a, b) = gen_range(r); E::Desc(sub(r), a, b) }
@@ -163,45 +171,50 @@ fn gen_e(r: &mut Rng, d: usize, n: usize) -> E {
         36 => E::Coal(sub(r), sub(r)),
         37 => E::Latest(sub(r), r.below(4)),
         38 => E::HeadsRange(sub(r), sub(r), r.chance(1, 4), if r.chance(1, 3) { bx(E::All) } else { sub(r) }),
-        _ => E::Anc(sub(r), 0, None, false),
+        39 => E::Anc(sub(r), 0, None, false),
+        40 => E::Merge(sub(r)),
+        _ => E::Scope(sub(r)),
     }
 }
 
-fn refs_of(e: &E, out: &mut Vec<usize>) {
+fn refs_of(g: &G, e: &E, out: &mut Vec<usize>) {
     match e {
         E::Commits(l) => out.extend(l),
-        E::None | E::All | E::VisibleHeads | E::Vhor | E::Root => {}
-        E::Anc(x, ..) | E::Desc(x, ..) | E::Heads(x) | E::Roots(x) | E::Fork(x) | E::Latest(x, _) | E::Not(x) => refs_of(x, out),
-        E::Range(a, b, ..) | E::Dag(a, b) | E::Reach(a, b) | E::Coal(a, b) | E::Un(a, b) | E::In(a, b) | E::Mi(a, b) => { refs_of(a, out); refs_of(b, out); }
-        E::HeadsRange(a, b, _, c) => { refs_of(a, out); refs_of(b, out); refs_of(c, out); }
+        E::None | E::All | E::VisibleHeads | E::Vhor | E::Root | E::Forks => {}
+        E::Anc(x, ..) | E::Desc(x, ..) | E::Heads(x) | E::Roots(x) | E::Fork(x) | E::Latest(x, _) | E::Not(x) | E::Merge(x) => refs_of(g, x, out),
+        E::Range(a, b, ..) | E::Dag(a, b) | E::Reach(a, b) | E::Coal(a, b) | E::Un(a, b) | E::In(a, b) | E::Mi(a, b) => { refs_of(g, a, out); refs_of(g, b, out); }
+        E::HeadsRange(a, b, _, c) => { refs_of(g, a, out); refs_of(g, b, out); refs_of(g, c, out); }
+        // the outer scope must not filter out the inner scope's heads and referenced commits
+        E::Scope(x) => { out.extend(&g.heads1); refs_of(g, x, out); }
     }
 }
 
-/// brute-force set semantics; `vh` = visible heads ∪ referenced commits; counts (sub-expressions, non-empty ones)
-fn brute(g: &G, vh: &S, e: &E, cnt: &mut (u64, u64)) -> S {
+/// brute-force set semantics; `heads` = visible heads of the current scope, `vh` = those ∪ the commits referenced in
+/// the scope; counts (sub-expressions, non-empty ones)
+fn brute(g: &G, heads: &[usize], vh: &S, e: &E, cnt: &mut (u64, u64)) -> S {
     let all = || g.anc(vh);
     let r: S = match e {
         E::None => S::new(),
         E::All => all(),
-        E::VisibleHeads => g.heads.iter().cloned().collect(),
+        E::VisibleHeads => heads.iter().cloned().collect(),
         E::Vhor => vh.clone(),
         E::Root => G::one(0),
         E::Commits(l) => l.iter().cloned().collect(),
-        E::Anc(x, lo, hi, fp) => g.anc_gen(&brute(g, vh, x, cnt), *lo, *hi, *fp),
-        E::Desc(x, lo, hi) => g.desc_gen(&brute(g, vh, x, cnt), *lo, *hi).intersection(&all()).cloned().collect(),
+        E::Anc(x, lo, hi, fp) => g.anc_gen(&brute(g, heads, vh, x, cnt), *lo, *hi, *fp),
+        E::Desc(x, lo, hi) => g.desc_gen(&brute(g, heads, vh, x, cnt), *lo, *hi).intersection(&all()).cloned().collect(),
         E::Range(rt, h, lo, hi, fp) => {
-            let a = g.anc_gen(&brute(g, vh, h, cnt), *lo, *hi, *fp);
-            let b = g.anc(&brute(g, vh, rt, cnt));
+            let a = g.anc_gen(&brute(g, heads, vh, h, cnt), *lo, *hi, *fp);
+            let b = g.anc(&brute(g, heads, vh, rt, cnt));
             a.difference(&b).cloned().collect()
         }
         E::Dag(rt, h) => {
-            let a = g.desc(&brute(g, vh, rt, cnt));
-            let b = g.anc(&brute(g, vh, h, cnt));
+            let a = g.desc(&brute(g, heads, vh, rt, cnt));
+            let b = g.anc(&brute(g, heads, vh, h, cnt));
             a.intersection(&b).cloned().collect()
         }
         E::Reach(src, dom) => {
-            let s = brute(g, vh, src, cnt);
-            let d = brute(g, vh, dom, cnt);
+            let s = brute(g, heads, vh, src, cnt);
+            let d = brute(g, heads, vh, dom, cnt);
             let mut seen: S = s.intersection(&d).cloned().collect();
             let mut st: Vec<usize> = seen.iter().cloned().collect();
             while let Some(c) = st.pop() {
@@ -211,17 +224,17 @@ fn brute(g: &G, vh: &S, e: &E, cnt: &mut (u64, u64)) -> S {
             }
             seen
         }
-        E::Heads(x) => g.heads_of(&brute(g, vh, x, cnt)),
+        E::Heads(x) => g.heads_of(&brute(g, heads, vh, x, cnt)),
         E::HeadsRange(rt, h, fp, f) => {
-            let a = g.anc_gen(&brute(g, vh, h, cnt), 0, None, *fp);
-            let b = g.anc(&brute(g, vh, rt, cnt));
-            let fl = brute(g, vh, f, cnt);
+            let a = g.anc_gen(&brute(g, heads, vh, h, cnt), 0, None, *fp);
+            let b = g.anc(&brute(g, heads, vh, rt, cnt));
+            let fl = brute(g, heads, vh, f, cnt);
             let s: S = a.difference(&b).filter(|c| fl.contains(c)).cloned().collect();
             g.heads_of(&s)
         }
-        E::Roots(x) => g.roots_of(&brute(g, vh, x, cnt)),
+        E::Roots(x) => g.roots_of(&brute(g, heads, vh, x, cnt)),
         E::Fork(x) => {
-            let s = brute(g, vh, x, cnt);
+            let s = brute(g, heads, vh, x, cnt);
             if s.is_empty() { S::new() } else {
                 let mut common: S = (0..g.n).collect();
                 for c in &s { common = common.intersection(&g.anc(&G::one(*c))).cloned().collect(); }
@@ -231,17 +244,33 @@ fn brute(g: &G, vh: &S, e: &E, cnt: &mut (u64, u64)) -> S {
         E::Latest(x, k) => {
             // canonical choice among ties = the engine's documented-in-code tie-break (position);
             // the oracle proper (`latest_ok`) does not rely on it
-            let s = brute(g, vh, x, cnt);
+            let s = brute(g, heads, vh, x, cnt);
             let mut v: Vec<usize> = s.into_iter().collect();
             v.sort_by_key(|c| std::cmp::Reverse((g.ts[*c], *c)));
             v.truncate(*k);
             v.into_iter().collect()
         }
-        E::Coal(a, b) => { let s = brute(g, vh, a, cnt); let t = brute(g, vh, b, cnt); if s.is_empty() { t } else { s } }
-        E::Not(x) => { let s = brute(g, vh, x, cnt); all().difference(&s).cloned().collect() }
-        E::Un(a, b) => brute(g, vh, a, cnt).union(&brute(g, vh, b, cnt)).cloned().collect(),
-        E::In(a, b) => brute(g, vh, a, cnt).intersection(&brute(g, vh, b, cnt)).cloned().collect(),
-        E::Mi(a, b) => brute(g, vh, a, cnt).difference(&brute(g, vh, b, cnt)).cloned().collect(),
+        E::Coal(a, b) => { let s = brute(g, heads, vh, a, cnt); let t = brute(g, heads, vh, b, cnt); if s.is_empty() { t } else { s } }
+        E::Not(x) => { let s = brute(g, heads, vh, x, cnt); all().difference(&s).cloned().collect() }
+        E::Un(a, b) => brute(g, heads, vh, a, cnt).union(&brute(g, heads, vh, b, cnt)).cloned().collect(),
+        E::In(a, b) => brute(g, heads, vh, a, cnt).intersection(&brute(g, heads, vh, b, cnt)).cloned().collect(),
+        E::Mi(a, b) => brute(g, heads, vh, a, cnt).difference(&brute(g, heads, vh, b, cnt)).cloned().collect(),
+        E::Merge(x) => {
+            // docs: roots(x_1:: & ... & x_N::), descendants taken inside all()
+            let s = brute(g, heads, vh, x, cnt);
+            if s.is_empty() { S::new() } else {
+                let mut common: S = all();
+                for c in &s { common = common.intersection(&g.desc(&G::one(*c))).cloned().collect(); }
+                g.roots_of(&common)
+            }
+        }
+        E::Forks => { let a = all(); a.iter().filter(|p| g.children[**p].iter().filter(|c| a.contains(c)).count() >= 2).cloned().collect() }
+        E::Scope(x) => {
+            let mut refs = vec![];
+            refs_of(g, x, &mut refs);
+            let inner: S = refs.iter().cloned().chain(g.heads1.iter().cloned()).collect();
+            brute(g, &g.heads1, &inner, x, cnt)
+        }
     };
     cnt.0 += 1;
     if !r.is_empty() { cnt.1 += 1; }
@@ -251,27 +280,33 @@ fn brute(g: &G, vh: &S, e: &E, cnt: &mut (u64, u64)) -> S {
 fn has_latest(e: &E) -> bool {
     match e {
         E::Latest(..) => true,
-        E::None | E::All | E::VisibleHeads | E::Vhor | E::Root | E::Commits(_) => false,
-        E::Anc(x, ..) | E::Desc(x, ..) | E::Heads(x) | E::Roots(x) | E::Fork(x) | E::Not(x) => has_latest(x),
+        E::None | E::All | E::VisibleHeads | E::Vhor | E::Root | E::Commits(_) | E::Forks => false,
+        E::Anc(x, ..) | E::Desc(x, ..) | E::Heads(x) | E::Roots(x) | E::Fork(x) | E::Not(x) | E::Merge(x) | E::Scope(x) => has_latest(x),
         E::Range(a, b, ..) | E::Dag(a, b) | E::Reach(a, b) | E::Coal(a, b) | E::Un(a, b) | E::In(a, b) | E::Mi(a, b) => has_latest(a) || has_latest(b),
         E::HeadsRange(a, b, _, c) => has_latest(a) || has_latest(b) || has_latest(c),
     }
 }
 
 /// does some `latest(x, k)` node cut through a group of equal timestamps (then the docs leave the result open)?
-fn latest_tie(g: &G, vh: &S, e: &E) -> bool {
+fn latest_tie(g: &G, heads: &[usize], vh: &S, e: &E) -> bool {
     let mut c = (0, 0);
-    let rec = |x: &E| latest_tie(g, vh, x);
+    let rec = |x: &E| latest_tie(g, heads, vh, x);
     match e {
         E::Latest(x, k) => {
             if rec(x) { return true; }
-            let s = brute(g, vh, x, &mut c);
+            let s = brute(g, heads, vh, x, &mut c);
             let mut v: Vec<u64> = s.iter().map(|p| g.ts[*p]).collect();
             v.sort_by_key(|t| std::cmp::Reverse(*t));
             *k > 0 && *k < v.len() && v[*k - 1] == v[*k]
         }
-        E::None | E::All | E::VisibleHeads | E::Vhor | E::Root | E::Commits(_) => false,
-        E::Anc(x, ..) | E::Desc(x, ..) | E::Heads(x) | E::Roots(x) | E::Fork(x) | E::Not(x) => rec(x),
+        E::None | E::All | E::VisibleHeads | E::Vhor | E::Root | E::Commits(_) | E::Forks => false,
+        E::Anc(x, ..) | E::Desc(x, ..) | E::Heads(x) | E::Roots(x) | E::Fork(x) | E::Not(x) | E::Merge(x) => rec(x),
+        E::Scope(x) => {
+            let mut refs = vec![];
+            refs_of(g, x, &mut refs);
+            let inner: S = refs.iter().cloned().chain(g.heads1.iter().cloned()).collect();
+            latest_tie(g, &g.heads1, &inner, x)
+        }
         E::Range(a, b, ..) | E::Dag(a, b) | E::Reach(a, b) | E::Coal(a, b) | E::Un(a, b) | E::In(a, b) | E::Mi(a, b) => rec(a) || rec(b),
         E::HeadsRange(a, b, _, c) => rec(a) || rec(b) || rec(c),
     }
@@ -300,6 +335,20 @@ fn show(e: &E) -> String {
         E::Un(a, b) => format!("U({},{})", show(a), show(b)),
         E::In(a, b) => format!("I({},{})", show(a), show(b)),
         E::Mi(a, b) => format!("M({},{})", show(a), show(b)),
+        E::Merge(x) => format!("merge_point({})", show(x)),
+        E::Forks => "forks".into(),
+        E::Scope(x) => format!("scope({})", show(x)),
+    }
+}
+
+/// contains an operator outside the Lean model (then only the oracle is consulted)
+fn unmodelled(e: &E) -> bool {
+    match e {
+        E::Merge(_) | E::Forks | E::Scope(_) => true,
+        E::None | E::All | E::VisibleHeads | E::Vhor | E::Root | E::Commits(_) => false,
+        E::Anc(x, ..) | E::Desc(x, ..) | E::Heads(x) | E::Roots(x) | E::Fork(x) | E::Latest(x, _) | E::Not(x) => unmodelled(x),
+        E::Range(a, b, ..) | E::Dag(a, b) | E::Reach(a, b) | E::Coal(a, b) | E::Un(a, b) | E::In(a, b) | E::Mi(a, b) => unmodelled(a) || unmodelled(b),
+        E::HeadsRange(a, b, _, c) => unmodelled(a) || unmodelled(b) || unmodelled(c),
     }
 }
 
@@ -307,8 +356,9 @@ fn gen_u64(lo: u64, hi: Option<u64>) -> std::ops::Range<u64> { lo..hi.unwrap_or(
 fn pr(fp: bool) -> std::ops::Range<u32> { if fp { 0..1 } else { PARENTS_RANGE_FULL } }
 
 /// the same tree through the `RevsetExpression` API
-fn build(e: &E, ids: &[CommitId]) -> Arc<ResolvedRevsetExpression> {
-    let b = |x: &E| build(x, ids);
+fn build(e: &E, real: &Real) -> Arc<ResolvedRevsetExpression> {
+    let ids = &real.ids;
+    let b = |x: &E| build(x, real);
     match e {
         E::None => RevsetExpression::none(),
         E::All => RevsetExpression::all(),
@@ -333,12 +383,16 @@ fn build(e: &E, ids: &[CommitId]) -> Arc<ResolvedRevsetExpression> {
         E::Un(a, c) => b(a).union(&b(c)),
         E::In(a, c) => b(a).intersection(&b(c)),
         E::Mi(a, c) => b(a).minus(&b(c)),
+        E::Merge(x) => b(x).merge_point(),
+        E::Forks => RevsetExpression::forks(),
+        E::Scope(x) => b(x).within_visibility(real.repo1.as_ref()),
     }
 }
 
 /// revset text, when the tree is expressible (`None` otherwise)
-fn text(e: &E, ids: &[CommitId]) -> Option<String> {
-    let t = |x: &E| text(x, ids);
+fn text(e: &E, real: &Real) -> Option<String> {
+    let ids = &real.ids;
+    let t = |x: &E| text(x, real);
     Some(match e {
         E::None => "none()".into(), E::All => "all()".into(), E::VisibleHeads => "visible_heads()".into(), E::Root => "root()".into(),
         E::Vhor => return None,
@@ -371,6 +425,9 @@ fn text(e: &E, ids: &[CommitId]) -> Option<String> {
         E::Un(a, b) => format!("(({})|({}))", t(a)?, t(b)?),
         E::In(a, b) => format!("(({})&({}))", t(a)?, t(b)?),
         E::Mi(a, b) => format!("(({})~({}))", t(a)?, t(b)?),
+        E::Merge(x) => format!("merge_point({})", t(x)?),
+        E::Forks => "forks()".into(),
+        E::Scope(x) => format!("at_operation({}, {})", real.op1, t(x)?),
     })
 }
 
@@ -394,7 +451,7 @@ fn parse_text(repo: &dyn Repo, s: &str) -> Result<Arc<ResolvedRevsetExpression>,
 // real repo
 // ---------------------------------------------------------------------------------------------
 
-struct Real { _test_repo: TestRepo, repo: Arc<ReadonlyRepo>, ids: Vec<CommitId>, pos: HashMap<CommitId, usize> }
+struct Real { _test_repo: TestRepo, repo: Arc<ReadonlyRepo>, repo1: Arc<ReadonlyRepo>, op1: String, ids: Vec<CommitId>, pos: HashMap<CommitId, usize> }
 
 fn sig(ts: u64) -> Signature {
     Signature { name: "n".into(), email: "e".into(), timestamp: Timestamp { timestamp: MillisSinceEpoch(ts as i64 * 1000), tz_offset: 0 } }
@@ -431,7 +488,11 @@ fn make_graph(r: &mut Rng, n: usize) -> (G, Real) {
     let mut children = vec![vec![]; n];
     for (c, ps) in parents.iter().enumerate() { for p in ps { children[*p].push(c); } }
     // hidden part: a few seeds and everything above them
-    let mut g = G { n, parents, children, ts, heads: vec![] };
+    // operation 1: everything visible
+    let repo1 = tx.commit("c19 all visible").block_on().unwrap();
+    let op1 = repo1.op_id().hex();
+    let mut tx = repo1.start_transaction();
+    let mut g = G { n, parents, children, ts, heads: vec![], heads1: vec![] };
     let mut seeds = S::new();
     if r.chance(4, 5) { for c in 1..n { if r.chance(1, 7) { seeds.insert(c); } } }
     let hidden = g.desc(&seeds);
@@ -447,7 +508,10 @@ fn make_graph(r: &mut Rng, n: usize) -> (G, Real) {
     let mut hs: Vec<usize> = repo.view().heads().iter().map(|h| pos[h]).collect();
     hs.sort_by_key(|x| std::cmp::Reverse(*x));
     g.heads = hs;
-    (g, Real { _test_repo: test_repo, repo, ids, pos })
+    let mut hs1: Vec<usize> = repo1.view().heads().iter().map(|h| pos[h]).collect();
+    hs1.sort_by_key(|x| std::cmp::Reverse(*x));
+    g.heads1 = hs1;
+    (g, Real { _test_repo: test_repo, repo, repo1, op1, ids, pos })
 }
 
 fn stream(real: &Real, expr: &Arc<ResolvedRevsetExpression>, optimized: bool) -> Result<Vec<usize>, String> {
@@ -478,26 +542,34 @@ fn kind(e: &E) -> &'static str {
         E::Range(_, _, 0, None, false) => "range", E::Range(..) => "range-gen", E::Dag(..) => "dag-range", E::Reach(..) => "reachable",
         E::Heads(_) => "heads", E::HeadsRange(..) => "heads-range", E::Roots(_) => "roots", E::Fork(_) => "fork-point", E::Latest(..) => "latest",
         E::Coal(..) => "coalesce", E::Not(_) => "not", E::Un(..) => "union", E::In(..) => "intersection", E::Mi(..) => "difference",
+        E::Merge(_) => "merge-point (oracle only)", E::Forks => "forks (oracle only)", E::Scope(_) => "at-operation scope (oracle only)",
     }
 }
 
 fn check_one(out: &mut Out, g: &G, real: &Real, greq: &str, e: &E, sub: &mut (u64, u64)) {
-    let expr = build(e, &real.ids);
+    let expr = build(e, real);
     let unopt = guard(|| stream(real, &expr, false));
     let opt = guard(|| stream(real, &expr, true));
     let es = show(e);
-    out.case(&format!("eval {greq} {es}"), &show_pos(&unopt));
-    out.case(&format!("evalopt {greq} {es}"), &show_pos(&opt));
+    if unmodelled(e) {
+        // outside the Lean model: evaluated and judged by the oracle only
+        out.impl_only(); out.impl_only();
+        out.tally("model", "oracle-only (merge_point / forks / at_operation scope inside)");
+    } else {
+        out.case(&format!("eval {greq} {es}"), &show_pos(&unopt));
+        out.case(&format!("evalopt {greq} {es}"), &show_pos(&opt));
+        out.tally("model", "compared with the Lean model");
+    }
     out.tally("top-operator", kind(e));
 
     // ---- oracle ----
     let mut refs = vec![];
-    refs_of(e, &mut refs);
+    refs_of(g, e, &mut refs);
     let vh: S = refs.iter().cloned().chain(g.heads.iter().cloned()).collect();
-    let want = brute(g, &vh, e, sub);
+    let want = brute(g, &g.heads, &vh, e, sub);
     out.tally("result", if want.is_empty() { "empty" } else if want.len() == g.n { "everything" } else { "proper-subset" });
     if !want.is_empty() && !matches!(e, E::Commits(_) | E::All) { out.nontrivial((greq.to_string(), es.clone())); }
-    let tie = has_latest(e) && latest_tie(g, &vh, e);
+    let tie = has_latest(e) && latest_tie(g, &g.heads, &vh, e);
     if tie { out.tally("latest", "cuts-a-timestamp-tie (set compared modulo tie)"); }
     let detail = |got: &dyn std::fmt::Debug| format!("graph parents={:?} heads={:?} ts={:?} expr={es} got={got:?} want={want:?}", g.parents, g.heads, g.ts);
     for (name, res) in [("unoptimized", &unopt), ("optimized", &opt)] {
@@ -522,7 +594,7 @@ fn check_one(out: &mut Out, g: &G, real: &Real, greq: &str, e: &E, sub: &mut (u6
         if a != b { out.oracle_fail("revset:optimized-differs-from-unoptimized", format!("unopt={a:?} opt={b:?}; {}", detail(&""))); } else { out.oracle_ok(); }
     }
     // ---- text round ----
-    if let Some(txt) = text(e, &real.ids) {
+    if let Some(txt) = text(e, real) {
         out.tally("text", "expressible");
         let got = guard(|| parse_text(real.repo.as_ref(), &txt).and_then(|x| stream(real, &x, true)));
         out.impl_only();
